@@ -61,21 +61,17 @@ def check_get_av(ctx):
     den = mk_fn('interp', P(Poly.const('0.55') * U), B(T, xw), B(T, chi))
     from fractions import Fraction
     ref = Poly.const(Fraction(-2, 5)) * num_ / den
-    okk = compare(ctx, 'ALG-9', 'get_av formula', loc(g), out, ref, (Q,), vocab=VOCAB, fns=FNS, findings=I.findings,
-                  detail_ok='-0.4 * interp(q; wav, chi; left=0, right=0) / interp(0.55 micron; wav, chi)')
+    # np.interp is compared in its expanded form (linear inside the table, the end values or left= / right= beyond it), so that holding zero outside through
+    # left=0 / right=0 and through a mask applied afterwards are one normal form; np.interp takes an increasing table as its precondition
+    ex = lambda p_: alg.expand_interp(p_, assume_sorted=True)
+    ref_e = ex(ref)
+    exd = lambda v_: v_.with_(poly=ex(v_.poly)) if isinstance(v_, Arr) else v_
+    okk = compare(ctx, 'ALG-9', 'get_av formula', loc(g), exd(out), ref_e, (Q,), vocab=VOCAB, fns=FNS | {'lininterp', 'at'}, findings=I.findings,
+                  detail_ok='-0.4 * interp(q; wav, chi; zero outside the table) / interp(0.55 micron; wav, chi)')
     if okk:
-        # degree 0 in chi
-        scaled = alg.subst_sym(out.poly, {'chi': lambda labs: sym('c') * sym('chi', T)})
-        compare(ctx, 'ALG-9', 'invariant under scaling of chi', loc(g), Arr((Q,), scaled), out.poly, (Q,), vocab=VOCAB, fns=FNS,
-                detail_ok='get_av(c*chi) == get_av(chi): opacity units and normalisation cancel')
-        at_v = _strip_extras(alg.subst_sym(out.poly, {'qq': lambda labs: Poly.const('0.55') * U}))
-        compare(ctx, 'ALG-9', 'exactly -0.4 at 0.55 micron', loc(g), Arr((Q,), at_v), Poly.const(Fraction(-2, 5)), (Q,), vocab=VOCAB, fns=FNS,
-                detail_ok='numerator and denominator are the same interpolation term at 0.55 micron')
-        extras = set()
-        for a in alg.contains_atom(out.poly, lambda a: a[0] == 'fn' and a[1] == 'interp' and any(x == P(q) for x in a[2:3])):
-            extras |= {x[1] for x in a if isinstance(x, tuple) and x and x[0] == 'C'}
-        ctx.expect({'left=0', 'right=0'} <= extras, 'ALG-9', 'zero outside the table', loc(g), 'query interpolation uses left=0, right=0',
-                   'query interpolation options are %s' % sorted(extras), 'left-right')
+        ctx.ok('ALG-9', 'invariant under scaling of chi', loc(g), 'get_av(c*chi) == get_av(chi): opacity units and normalisation cancel (follows from the formula: degree 0 in chi)')
+        ctx.ok('ALG-9', 'exactly -0.4 at 0.55 micron', loc(g), 'numerator and denominator are the same interpolation term at 0.55 micron (follows from the formula)')
+        ctx.ok('ALG-9', 'zero outside the table', loc(g), 'the opacity at the query is taken as zero below the first and above the last tabulated wavelength (follows from the formula)')
     # refusals
     for nm, arg in (('bare numbers', symarr('qq', (Q,), unit=num(1))), ('non-length quantity', symarr('qq', (Q,), unit=sym('unit:Hz')))):
         I2 = Interp(repo)
@@ -84,7 +80,7 @@ def check_get_av(ctx):
     # another length unit is accepted and gives the same physical formula
     I3 = Interp(repo)
     o3 = I3.call(g, [symarr('qq', (Q,), unit=sym('unit:m'))], selfv=mk())
-    compare(ctx, 'ALG-9', 'query in another length unit', loc(g), o3, ref, (Q,), vocab=VOCAB, fns=FNS, findings=I3.findings, detail_ok='same term for a query given in metres')
+    compare(ctx, 'ALG-9', 'query in another length unit', loc(g), exd(o3), ref_e, (Q,), vocab=VOCAB, fns=FNS | {'lininterp', 'at'}, findings=I3.findings, detail_ok='same term for a query given in metres')
 
     # ---- EFF-4: get_av depends on the current table only: anything it remembers on the object is invalidated by both setters
     from ..effects import Effects
